@@ -538,11 +538,25 @@ impl OwnedLazyValue {
         std::mem::take(self)
     }
 
+    // `true`, `false` and `null` are kept parsed, `LazyRaw` only holds the other types.
+    fn from_literal(raw: &FastStr) -> Option<Self> {
+        match raw.as_bytes().first() {
+            Some(b't') => Some(true.into()),
+            Some(b'f') => Some(false.into()),
+            Some(b'n') => Some(().into()),
+            _ => None,
+        }
+    }
+
     pub(crate) fn new(raw: JsonSlice, status: HasEsc) -> Self {
         let raw = match raw {
             JsonSlice::Raw(r) => FastStr::new(unsafe { from_utf8_unchecked(r) }),
             JsonSlice::FastStr(f) => f.clone(),
         };
+
+        if let Some(literal) = Self::from_literal(&raw) {
+            return literal;
+        }
 
         if status == HasEsc::None {
             Self(LazyPacked::NonEscStrRaw(raw))
@@ -586,6 +600,9 @@ impl<'de> From<LazyValue<'de>> for OwnedLazyValue {
         let raw = unsafe { lv.raw.as_faststr() };
         if lv.inner.no_escaped() && raw.as_bytes()[0] == b'"' {
             return Self(LazyPacked::NonEscStrRaw(raw));
+        }
+        if let Some(literal) = Self::from_literal(&raw) {
+            return literal;
         }
 
         Self(LazyPacked::Raw(LazyRaw {
